@@ -70,7 +70,7 @@ def gen(t, tier):
         grid = {'srs': 'EPSG:3857', 'tile_size': [64, 64], 'bbox': bbox, 'num_levels': t.randint(3, 5), 'origin': t.pick(['ll', 'ul'])}
     sc = {'grid': grid, 'gk': gk, 'meta_size': t.pick([[1, 1], [2, 2], [3, 3], [2, 1], [4, 4]]),
           'levels': t.pick(['all', 'all', 'last2', 'first', 'odd', 'range']),
-          'coverage': t.weighted([('none', 2), ('bbox', 3), ('lshape', 2), ('multi', 2), ('tiny', 1)]),
+          'coverage': t.weighted([('none', 2), ('bbox', 3), ('lshape', 2), ('multi', 2), ('tiny', 1), ('edge', 4)]),
           'cov_seed': [t.choice(1000), t.choice(1000), t.choice(1000), t.choice(1000)],
           'skip_geoms': t.pick([0, 0, 0, 1, 2]), 'verbose': bool(t.choice(2)),
           'work': t.pick([0.0, 0.01, 0.3, 0.6, 2.0, 31.0]),
@@ -88,6 +88,8 @@ def shrink(sc):
             c = copy.deepcopy(sc)
             del c['interrupts'][i]
             yield c
+    if sc['coverage'] == 'edge':
+        pass
     for key, simple in (('coverage', 'none'), ('meta_size', [1, 1]), ('levels', 'all'), ('skip_geoms', 0), ('verbose', True)):
         if sc[key] != simple:
             c = copy.deepcopy(sc)
@@ -121,10 +123,28 @@ class Bad(Exception):
         self.msg = msg
 
 
-def _coverage_geom(sc, gbbox):
+def _coverage_geom(sc, gbbox, grid=None):
     """returns (seed-conf coverage dict or None, shapely geometry or None, files to write)"""
     from shapely.geometry import box, Polygon, MultiPolygon
     x0, y0, x1, y1 = gbbox
+    if sc['coverage'] == 'edge' and grid is not None:
+        # a bbox whose upper/right edges end just beyond a tile border of a COARSE level: by a few pixels of the finest
+        # level, but by less than a tenth of a coarse pixel
+        s0, s1, s2, s3 = sc['cov_seed']
+        L = s0 % max(1, grid.levels - 1)
+        rL, rf = grid.resolutions[L], grid.resolutions[grid.levels - 1]
+        nx, ny = grid.grid_sizes[L]
+        tw, th = grid.tile_size[0] * rL, grid.tile_size[1] * rL
+        bx = x0 + (1 + s1 % max(1, nx - 1)) * tw if nx > 1 else (x0 + x1) / 2.0
+        by = (y0 + (1 + s2 % max(1, ny - 1)) * th if grid.origin not in ('ul', 'nw') else y1 - (1 + s2 % max(1, ny - 1)) * th) \
+            if ny > 1 else (y0 + y1) / 2.0
+        offs = [1.5 * rf, 3 * rf, rL / 20.0, rL / 12.0, -1.5 * rf]
+        ox, oy = offs[s3 % 5], offs[(s3 // 5) % 5]
+        bb = [max(x0, bx - 0.3 * (x1 - x0)), max(y0, by - 0.25 * (y1 - y0)), min(x1, bx + ox), min(y1, by + oy)]
+        if bb[2] - bb[0] > 4 * rf and bb[3] - bb[1] > 4 * rf:
+            return {'bbox': bb, 'srs': 'EPSG:3857'}, box(*bb), {}
+    if sc['coverage'] == 'edge':
+        sc = dict(sc, coverage='bbox')
     w, h = x1 - x0, y1 - y0
     a, b, c, d = [v / 1000.0 for v in sc['cov_seed']]
     kind = sc['coverage']
@@ -205,7 +225,8 @@ def _expected(grid, meta, levels, geom, skip_geoms):
                     continue
                 outer = box(bx0 - res, by0 - res, bx1 + res, by1 + res)
                 if bx1 - bx0 > 2 * res and by1 - by0 > 2 * res and pg_in is not None:
-                    inner = box(bx0 + res, by0 + res, bx1 - res, by1 - res)
+                    # demanded: the coverage reaches at least one pixel OF THE FINEST SELECTED LEVEL into the meta tile
+                    inner = box(bx0 + fr, by0 + fr, bx1 - fr, by1 - fr)
                     if pg_in.intersects(inner):
                         must.add((X, Y, z))
                 if relaxed or pg.intersects(outer):
@@ -295,7 +316,7 @@ def run(sc, tape):
             conf['grids']['g'] = dict(sc['grid'])
             pc = F.make_conf(conf)
             grid = pc.grids['g'].tile_grid()
-            cov_conf, geom, files = _coverage_geom(sc, grid.bbox)
+            cov_conf, geom, files = _coverage_geom(sc, grid.bbox, grid)
             os.makedirs('/simfs/conf')
             os.makedirs('/simfs/seed')
             for p, text in files.items():
